@@ -298,6 +298,69 @@ def cli_lane(pid, tier, seed, agg, meta, profiles=("debug", "release")):
 
 
 # ----------------------------------------------------------------------------------------
+# resource amplification (C01): small rules whose memory demand is astronomically large
+
+AMPLIFY = [
+    # (name, rule, data, demand) - demand "huge" = >= 2^40 bytes: no machine can satisfy it, the address-space
+    # limit below only makes the inevitable allocation failure cheap and safe to observe
+    ("cat-doubling-40", {"reduce": [{"var": ""}, {"cat": [{"var": "accumulator"}, {"var": "accumulator"}]}, "x"]}, [0] * 40, "huge"),
+    ("merge-doubling-40", {"reduce": [{"var": ""}, {"merge": [{"var": "accumulator"}, {"var": "accumulator"}]}, [1]]}, [0] * 40, "huge"),
+    ("cat-doubling-12", {"reduce": [{"var": ""}, {"cat": [{"var": "accumulator"}, {"var": "accumulator"}]}, "x"]}, [0] * 12, "small"),
+    ("merge-doubling-12", {"reduce": [{"var": ""}, {"merge": [{"var": "accumulator"}, {"var": "accumulator"}]}, [1]]}, [0] * 12, "small"),
+    ("map-in-map-300", {"map": [{"var": ""}, {"map": [[1, 2, 3, 4, 5, 6, 7, 8, 9, 10], {"cat": [{"var": ""}, "-"]}]}]}, list(range(300)), "small"),
+    ("cat-of-cats", {"cat": [{"cat": [{"var": "s"}, {"var": "s"}]}, {"cat": [{"var": "s"}, {"var": "s"}]}]}, {"s": "\u00e9" * 100000}, "small"),
+    ("reduce-square", {"reduce": [{"var": ""}, {"cat": [{"var": "accumulator"}, "0123456789"]}, ""]}, [0] * 3000, "small"),
+]
+
+
+def amplify_lane(pid, tier, seed, agg, meta):
+    """Each case in its own library process under RLIMIT_AS (3 GiB) and RLIMIT_CPU (120 s)."""
+    import resource, signal as _sig
+    jlmon = O.build_lane("relchk")
+    t0 = time.time()
+    rep = {"evaluations": 0, "monitors": {"c01.amplification": {"observed": 0, "judged": 0, "unjudged": 0, "violations": 0}}, "violations": [], "cells": {},
+           "nontrivial_hashes": [], "samples": [], "nontrivial_total": 0}
+
+    def limits():
+        resource.setrlimit(resource.RLIMIT_AS, (3 << 30, 3 << 30))
+        resource.setrlimit(resource.RLIMIT_CPU, (120, 120))
+        resource.setrlimit(resource.RLIMIT_CORE, (0, 0))
+
+    def one(case):
+        name, rule, data, demand = case
+        inp = (json.dumps({"rule": json.dumps(rule), "data": json.dumps(data)}) + "\n").encode()
+        env = dict(O.BASE_ENV)
+        env["JL_CPU_BUDGET_S"] = "100"
+        env["RUST_BACKTRACE"] = "0"
+        try:
+            p = subprocess.run([jlmon, "libcall"], input=inp, stdout=subprocess.PIPE, stderr=subprocess.PIPE, preexec_fn=limits, env=env, timeout=300)
+            return case, p.returncode, p.stdout.decode("utf8", "replace"), p.stderr.decode("utf8", "replace")
+        except subprocess.TimeoutExpired:
+            return case, None, "", "timeout"
+
+    with ThreadPoolExecutor(max_workers=4) as ex:
+        for (name, rule, data, demand), rc, out, err in ex.map(one, AMPLIFY):
+            rep["evaluations"] += 1
+            m = rep["monitors"]["c01.amplification"]
+            m["observed"] += 1
+            m["judged"] += 1
+            rep["nontrivial_hashes"].append(hkey("amplify", name))
+            rep["nontrivial_total"] += 1
+            answered = "@@RET " in out and '"hang"' not in out
+            rep["cells"]["amplify:%s:%s" % (demand, "answered" if answered else "died")] = rep["cells"].get("amplify:%s:%s" % (demand, "answered" if answered else "died"), 0) + 1
+            if answered and rc == 0:
+                continue
+            kind = "abort-on-allocation-failure" if "memory allocation of" in err else ("cpu-budget" if '"hang"' in out or rc == 3 else "died:%s" % rc)
+            m["violations"] += 1
+            rep["violations"].append({"monitor": "c01.amplification", "sig": "%s:%s" % (kind, name), "rule": rule, "data": data if len(json.dumps(data)) < 500 else "%d elements" % len(data),
+                                      "expected": "a value or an error", "got": {"exit": rc, "stderr": err[-300:]},
+                                      "note": "the process evaluating this rule did not end with a value or an error (3 GiB address space, 120 s CPU)", "lane": "amplify", "direct": False, "count": 1})
+    rep["samples"].append({"amplification_cases": [c[0] for c in AMPLIFY]})
+    O.merge_report(agg, rep, "amplify")
+    O.lane_record(agg, "amplify", "library-as-a-process under RLIMIT_AS=3GiB / RLIMIT_CPU=120s", [rep], [], time.time() - t0)
+
+
+# ----------------------------------------------------------------------------------------
 # strace (C17 H5): the command's only externally visible effects are writes to fd 1 / 2
 
 DENY = re.compile(r"^(socket|connect|bind|listen|accept4?|sendto|sendmsg|unlink(at)?|rename(at2?)?|mkdir(at)?|rmdir|link(at)?|symlink(at)?|"
